@@ -111,33 +111,6 @@ theorem sprayPick_budget : ∀ (m : SprayMeta) (ps : List Peer),
 
 /-! ## The algorithms' choice -/
 
-theorem lookupMeta_setMeta_eq (l : List (Key × SprayMeta)) (k : Key) (m : SprayMeta) :
-    lookupMeta (setMeta l k m) k = some m := by
-  induction l with
-  | nil => simp [setMeta, lookupMeta]
-  | cons p l ih =>
-    obtain ⟨a, m'⟩ := p
-    by_cases h : a = k
-    · simp [setMeta, lookupMeta, h]
-    · simp [setMeta, lookupMeta, h, ih]
-
-theorem lookupMeta_setMeta_ne (l : List (Key × SprayMeta)) (k k' : Key) (m : SprayMeta) (h : k' ≠ k) :
-    lookupMeta (setMeta l k m) k' = lookupMeta l k' := by
-  induction l with
-  | nil =>
-    have : ¬ k = k' := fun e => h e.symm
-    simp [setMeta, lookupMeta, this]
-  | cons p l ih =>
-    obtain ⟨a, m'⟩ := p
-    by_cases h1 : a = k
-    · subst h1
-      have : ¬ a = k' := fun e => h e.symm
-      simp [setMeta, lookupMeta, this]
-    · by_cases h2 : a = k'
-      · subst h2
-        simp [setMeta, lookupMeta, h1]
-      · simp [setMeta, lookupMeta, h1, h2, ih]
-
 theorem modRt_cfg (k : Key) (f : Routing → Routing) (n : Node) : (modRt k f n).cfg = n.cfg :=
   (modRt_only k f n).env.cfg
 
